@@ -106,10 +106,10 @@ def _install():
 
 
 def gen_cases(tier: str, seed: int) -> list[dict[str, Any]]:
-    n = 48 if tier == "quick" else 960
+    n = 48 if tier == "quick" else 8000
     per = 45 if tier == "quick" else 210
     cases = [dict(kind="points", seed=seed, idx=i, n=per) for i in range(n)]
-    ng = 16 if tier == "quick" else 160
+    ng = 16 if tier == "quick" else 2000
     cases += [dict(kind="grid", seed=seed, idx=i) for i in range(ng)]
     return cases
 
